@@ -284,6 +284,13 @@ fn c15_lines() -> Vec<String> {
     .iter()
     .map(|x| x.to_string())
     .collect();
+    // out-of-range numbers and over-long argument lists
+    v.push("go nodes 18446744073709551616".into());
+    v.push("go movetime -5".into());
+    v.push("go wtime 340282366920938463463374607431768211456 btime 1".into());
+    v.push(format!("go{}", " depth 1".repeat(400)));
+    v.push(format!("position startpos moves{}", " e2e4".repeat(600)));
+    v.push(format!("setoption name{} value 1", " Hash".repeat(500)));
     v.push(format!("position fen {VALID_FEN}"));
     v.push(format!("position fen {VALID_FEN} moves e1g1"));
     v.push(format!("position fen {VALID_FEN} moves e1g1 e8g8 a1a1"));
